@@ -229,7 +229,7 @@ def run_property(prop: str, tier: str, seed: int, repo: str, only: Optional[str]
     extract.set_repo(repo)
     mod = find_module(prop)
     reg = getattr(mod, 'REG', None)
-    timeout_ms = getattr(mod, 'TIMEOUT_MS', {}).get(tier, 10000 if tier == 'quick' else 60000)
+    timeout_ms = getattr(mod, 'TIMEOUT_MS', {}).get(tier, 30000 if tier == 'quick' else 120000)
     reports = []
     static_results = []
     crashed = []
